@@ -45,11 +45,10 @@ def cases(ctx):
     # other values, the dominant value being the largest, the smallest or a middle value of the chunk: every run then
     # costs a code plus the varint, so a jumpstart that is too large shows at once; for bool (W = 1) the bound of
     # W + 4 = 5 bits per number is tight
-    pd = [("bool", hi) for hi in (0, 1, 2)] * (1 if ctx.quick else 4) + \
-         [(rng.choice([d for d in S.ALL_DT if d != "bool"]), rng.below(3)) for _ in range(4 if ctx.quick else 30)]
-    for dt, where in pd:
+    pd = [("bool", hi, per) for hi in (0, 1) for per in (5, 6)] * (1 if ctx.quick else 3) + \
+         [(rng.choice([d for d in S.ALL_DT if d != "bool"]), rng.below(3), rng.choice([5, 5, 6, 7])) for _ in range(4 if ctx.quick else 30)]
+    for dt, where, period in pd:                                # 4 of 5, 5 of 6, 6 of 7 dominant
         n = rng.choice([1001, 1005, 2000, 5000])
-        period = rng.choice([5, 5, 6, 7])                       # 4 of 5, 5 of 6, 6 of 7 dominant
         if dt == "bool":
             dom, others = (1, [0]) if where else (0, [1])
         else:
@@ -61,7 +60,7 @@ def cases(ctx):
         xs = [dom if (i % period) != period - 1 else rng.choice(others) for i in range(n)]
         if xs.count(dom) * 5 < 4 * n:
             xs[-1] = dom
-        out.append({"dt": dt, "level": rng.choice([4, 8, 12]), "order": rng.choice([0, 0, 1]) if dt == "bool" else 0, "gcds": rng.below(2),
+        out.append({"dt": dt, "level": rng.choice([4, 8, 12]), "order": 0, "gcds": rng.below(2),
                     "chunks": [xs], "kinds": ["periodic-dominant"], "drain": 0})
     for _ in range(800 if ctx.quick else 8000):
         out.append(S.enc_case(rng))
